@@ -298,7 +298,8 @@ CCall(qe, q) ==
                  (IF F[o].name # n \/ ("." \o F[o].suf) # sfx THEN {V({"C19"}, "call-output-order", o)} ELSE {})
                  \cup (IF F[o].ttl # k.cttl THEN {V({"C19"}, "call-output-ttl", o)} ELSE {})
                  \cup (IF F[o].c.k # k.recv[x - napp] THEN {V({"C19"}, "call-output-content", o)} ELSE {})
-                 \cup (IF ~F[o].hash \/ ~F[o].cas THEN {V({"C19", "C10"}, "call-output-content-missing", o)} ELSE {})
+                 \cup (IF F[o].name = n /\ ("." \o F[o].suf) = sfx /\ (~F[o].hash \/ ~F[o].cas)
+                       THEN {V({"C19", "C10"}, "call-output-content-missing", o)} ELSE {})
                ELSE
                  (IF F[o].name # n \/ F[o].suf # k.terminal THEN {V({"C19"}, "call-terminal", o)} ELSE {})
                  \cup (IF F[o].err # (k.terminal = "error") THEN {V({"C19"}, "call-terminal-error-flag", o)} ELSE {}))
@@ -310,7 +311,9 @@ CCall(qe, q) ==
             \cup (IF Cardinality(Term) > 1 THEN {V({"C19"}, "call-two-terminals", Max(Term))} ELSE {})
             \cup (IF Len(got) > total THEN {V({"C19"}, "call-extra-output", got[total + 1])} ELSE {})
             \cup UNION {FrameBad(got[x], x) : x \in 1..(IF Len(got) < total THEN Len(got) ELSE total)}
-            \cup (IF Len(got) < total /\ settled THEN {V({"C19"}, "missing-call-output", q)} ELSE {})
+            \* after the terminal nothing more can come: a short sequence is wrong for good
+            \cup (IF Len(got) < total /\ Term # {} THEN {V({"C19"}, "call-output-incomplete", q)} ELSE {})
+            \cup (IF Len(got) < total /\ Term = {} /\ settled THEN {V({"C19"}, "missing-call-output", q)} ELSE {})
             \cup (IF k.cat THEN UNION {
                     LET x == F[o].c.x  xs == {x[y] : y \in 1..Len(x)}  m == MaxOr(xs, 0)  dc == F[d].ctx IN
                       (IF \E y \in xs : y < 1 \/ F[y].ctx # dc THEN {V({"C06"}, "cat-foreign-context", o)} ELSE {})
